@@ -9,7 +9,7 @@ import (
 
 // Value arguments given as Go int, bool and float64 (core.ToBytes stores their canonical text, C17).
 // The operation text carries a typed literal — `i:<n>`, `t:0|1`, `f:<m>p<e>` — which the Lean driver
-// turns into bytes with the model of `core.ToBytes` (`Conv.argBytes`).
+// turns into bytes with the model of `core.ToBytes` (`Conv.argBytes`); `n:` is a nil `[]byte`.
 type gval struct {
 	tok string
 	v   any
@@ -23,6 +23,10 @@ var (
 )
 
 func (g *gen) gval() gval {
+	if g.rnd.Intn(6) == 0 {
+		// a nil byte slice IS the empty byte string (`n:`)
+		return gval{"n:", []byte(nil)}
+	}
 	switch g.rnd.Intn(3) {
 	case 0:
 		n := typedInts[g.rnd.Intn(len(typedInts))]
